@@ -31,6 +31,12 @@ type HandSpec struct {
 	FileSize   bool
 	Tsize      bool // links carry a Tsize
 	TsizeZero  bool // ... of value 0 (Tsize is optional and advisory in dag-pb)
+	// Lie: the ROOT under-declares something (sizes in UnixFS metadata are hints;
+	// the content of a file is the concatenation of its leaves):
+	// "tsize-under-mid" (link Tsize of the middle child = 1), "blocksize-under-mid"
+	// (BlockSizes entry of the middle child = 1), "filesize-under" (FileSize two
+	// bytes short)
+	Lie string
 }
 
 func l(n int, seed byte) HandNode {
@@ -98,9 +104,32 @@ func sortStrings(a []string) {
 	}
 }
 
-// HandByLabel finds a spec of the family.
+// HandLiars: DAGs whose root under-declares a size. A sequential read of the
+// whole file and the walks of the whole entity do not depend on those hints;
+// anything positioned by them (Seek, ranges) does, so these DAGs only join the
+// whole-entity checks.
+func HandLiars() []HandSpec {
+	var out []HandSpec
+	shapes := HandShapes()
+	for _, n := range []string{"3", "2x2+1", "3-empty-end"} {
+		for _, lk := range []string{"raw", "pbfile"} {
+			for _, lie := range []string{"tsize-under-mid", "blocksize-under-mid", "filesize-under"} {
+				out = append(out, HandSpec{Label: fmt.Sprintf("hand-liar %s leaves=%s %s", n, lk, lie),
+					Root: shapes[n], LeafKind: lk, BlockSizes: "all", FileSize: true, Tsize: true, Lie: lie})
+			}
+		}
+	}
+	return out
+}
+
+// HandByLabel finds a spec of the family (or of the liars).
 func HandByLabel(label string) (HandSpec, bool) {
 	for _, h := range HandFamily() {
+		if h.Label == label {
+			return h, true
+		}
+	}
+	for _, h := range HandLiars() {
 		if h.Label == label {
 			return h, true
 		}
@@ -116,7 +145,7 @@ func (h HandSpec) Sized() bool { return h.BlockSizes == "all" || h.BlockSizes ==
 // where the reader looks for it (BlockSizes for dag-pb children, Tsize for raw
 // leaves) and no chunk is empty.
 func (h HandSpec) LazyExact() bool {
-	if !h.Sized() || strings.Contains(h.Label, "empty") {
+	if !h.Sized() || strings.Contains(h.Label, "empty") || h.Lie != "" {
 		return false
 	}
 	if h.LeafKind == "raw" || h.LeafKind == "mixed" {
@@ -128,8 +157,8 @@ func (h HandSpec) LazyExact() bool {
 // Build writes the DAG into s and returns the root and the file content.
 func (h HandSpec) Build(s *store.Store) (cid.Cid, []byte) {
 	leafNo := 0
-	var rec func(n HandNode) (c cid.Cid, content []byte, cum uint64)
-	rec = func(n HandNode) (cid.Cid, []byte, uint64) {
+	var rec func(n HandNode, depth int) (c cid.Cid, content []byte, cum uint64)
+	rec = func(n HandNode, depth int) (cid.Cid, []byte, uint64) {
 		if n.Children == nil {
 			kind := h.LeafKind
 			if kind == "mixed" {
@@ -165,14 +194,22 @@ func (h HandSpec) Build(s *store.Store) (cid.Cid, []byte) {
 		var sizes []uint64
 		var content []byte
 		cum := uint64(0)
-		for _, ch := range n.Children {
-			cc, cont, ccum := rec(ch)
+		for idx, ch := range n.Children {
+			cc, cont, ccum := rec(ch, depth+1)
 			ccumLink := ccum
 			if h.TsizeZero {
 				ccumLink = 0
 			}
+			isRootMid := depth == 0 && idx == len(n.Children)/2 && len(n.Children) > 2
+			if h.Lie == "tsize-under-mid" && isRootMid {
+				ccumLink = 1
+			}
 			links = append(links, model.PBLink{Cid: cc, Tsize: ccumLink, HasTsize: h.Tsize})
-			sizes = append(sizes, uint64(len(cont)))
+			if h.Lie == "blocksize-under-mid" && isRootMid {
+				sizes = append(sizes, 1)
+			} else {
+				sizes = append(sizes, uint64(len(cont)))
+			}
 			content = append(content, cont...)
 			cum += ccum
 		}
@@ -188,6 +225,9 @@ func (h HandSpec) Build(s *store.Store) (cid.Cid, []byte) {
 		}
 		if h.FileSize {
 			sz := uint64(len(content))
+			if h.Lie == "filesize-under" && depth == 0 && sz >= 2 {
+				sz -= 2
+			}
 			d.Filesize = &sz
 		}
 		db, _ := proto.Marshal(d)
@@ -196,6 +236,6 @@ func (h HandSpec) Build(s *store.Store) (cid.Cid, []byte) {
 		s.Put(c, blk)
 		return c, content, cum + uint64(len(blk))
 	}
-	c, content, _ := rec(h.Root)
+	c, content, _ := rec(h.Root, 0)
 	return c, content
 }
